@@ -1019,6 +1019,9 @@ class APIConnection:
 
     async def disconnect(self) -> None:
         """Disconnect from the API."""
+        # The disconnect is expected from the moment it is requested, even if
+        # the connection is lost while we wait for the connect to finish
+        self._expected_disconnect = True
         if self._finish_connect_future is not None:
             # Try to wait for the handshake to finish so we can send
             # a disconnect request. If it doesn't finish in time
